@@ -42,7 +42,7 @@ func freeCall(x *core.X, ins ssa.Instruction) (cmd string, ok bool) {
 }
 
 func checkC03(p *core.Prog, r *core.Report) {
-	r.Explanation = "Decides structural necessary conditions of exactly-one-reply: (R1) on every path of LockDB.Lock/UnLock (with the helpers that finish a request inlined) the request is answered exactly once, or not at all with exactly one recorded deferral (queued as waiter, ack pending, retry recursion, hand-over); (R2) the asynchronous repliers doTimeOut/doExpried/DoAckLock reply only after a test-and-set of the hold's tombstone inside one shard-mutex section, at most once per path, with the hold's own command and protocol loaded under the mutex; (R3) wakeUpWaitLock/cancelWaitLock tombstone the wait before releasing the mutex and replying; (R4) the text protocol delivers a reply only when its RequestId equals the connection's current lockRequestId; (R5) no pooled command is freed twice or freed while a live hold retains it, on any path; (R6) the text protocol zeroes that request-id filter before it hands a reply to its connection, on every path (a later notice for the same request cannot become a second answer); (R7) UpdateLockedLock makes the request's command the hold's command on every path, which is the summary R5 uses for that call; (R8) every text handler that hands a request to the engine takes the engine's answer out of the reply channel before it returns. NOT decided: races between goroutines beyond the mutex/tombstone premises, delivery order on the wire, routing through ProxyServerProtocol (C18)."
+	r.Explanation = "Decides structural necessary conditions of exactly-one-reply: (R1) on every path of LockDB.Lock/UnLock (with the helpers that finish a request inlined) the request is answered exactly once, or not at all with exactly one recorded deferral (queued as waiter, ack pending, retry recursion, hand-over); (R2) the asynchronous repliers doTimeOut/doExpried/DoAckLock reply only after a test-and-set of the hold's tombstone inside one shard-mutex section, at most once per path, with the hold's own command and protocol loaded under the mutex; (R3) wakeUpWaitLock/cancelWaitLock tombstone the wait before releasing the mutex and replying; (R4) the text protocol delivers a reply only when its RequestId equals the connection's current lockRequestId; (R5) no pooled command is freed twice or freed while a live hold retains it, on any path; (R6) the text protocol zeroes that request-id filter before it hands a reply to its connection, on every path (a later notice for the same request cannot become a second answer); (R7) UpdateLockedLock makes the request's command the hold's command on every path, which is the summary R5 uses for that call; (R8) every text handler that hands a request to the engine takes the engine's answer out of the reply channel before it returns; (R10) cancelWaitLock selects the waiter it is going to answer only on the not-answered side of a test of that entry's timeouted flag (an entry answered TIMEOUT stays parked behind a live head; selecting it answers it twice). NOT decided: races between goroutines beyond the mutex/tombstone premises, delivery order on the wire, routing through ProxyServerProtocol (C18)."
 	r.Assumptions = []string{
 		"Go type checker, go/ssa and VTA call graph are correct for /repo",
 		"a reply is a call of a method named ProcessLockResultCommand[Locked]",
@@ -57,6 +57,11 @@ func checkC03(p *core.Prog, r *core.Report) {
 	c03R7(p, r)
 	c03R8(p, r)
 	c03R9(p, r)
+	// R10: cancelWaitLock tombstones and answers (UNLOCK_ERROR) the entry it
+	// selected; an entry whose timeouted flag is already set was answered
+	// before (TIMEOUT by the sweeper, or an earlier cancel) and stays parked in
+	// the queue behind a live head, so selecting it is a second terminal reply.
+	cancelSelectsLive(p, r, "C03/R10")
 }
 
 // finishing helpers: they answer or hand over the request they are given.
